@@ -329,7 +329,7 @@ example : admissibleRun (init afterFixes 2)
 -- and a model version the guard refuses after the repairs: `Note` gets an index while row 1 of it exists
 example : admissibleRun (init afterFixes 1) [.new 0 1 1 [5], .model 0 2] = false := by decide
 
--- `C17_no_stale_hit_of` on a history no guard admits, with the two repairs it needs and every other defect present
+-- `C17_no_stale_hit_of` on a history outside every guard, with the two repairs it needs and every other defect present
 -- (unindexed synchronised rows, ignored model versions): rows are missed (site 1: row 1), none is wrongly found
 example : admissibleRun (init { Defects.beforeFix with deleteLeavesIndex := false, deleteUnguarded := false } 2)
       [.new 0 1 0 [5], .new 0 2 0 [6], .pull 1 0, .upd 1 2 [7], .pull 0 1, .del 0 1, .new 0 3 0 [6], .model 0 3] = false ∧
